@@ -33,9 +33,16 @@ def decide_identity(chk, name, code, oracle, replay, timeout_ms=30000):
         replay(name, None)
         return False
     t0 = time.time()
-    v, env = Z.prove_equal(code, oracle, name=name, timeout_ms=timeout_ms)
-    if v == "unknown":
-        v, env = Z.find_model(code - oracle, name=name, timeout_ms=timeout_ms, rng=random.Random(seed()))
+    if (code - oracle).is_zero():
+        v, env = Z.prove_equal(code, oracle, name=name, timeout_ms=timeout_ms)
+    else:
+        # a structurally non-empty residual is usually a genuine discrepancy: look for a model cheaply (pinned search) before
+        # spending the full budget on the entailment
+        v, env = Z.prove_equal(code, oracle, name=name, timeout_ms=min(timeout_ms, 8000), retry=False)
+        if v == "unknown":
+            v, env = Z.find_model(code - oracle, name=name, timeout_ms=8000, rng=random.Random(seed()))
+        if v == "unknown":
+            v, env = Z.prove_equal(code, oracle, name=name, timeout_ms=timeout_ms)
     chk.obligation(name, v, seconds=round(time.time() - t0, 4),
                    detail=dict(code_terms=len(code.t), oracle_terms=len(oracle.t),
                                residual_terms=len((code - oracle).t)))
@@ -133,14 +140,9 @@ def run_shape(chk, ns, nq, np_, nv, n_sym_T, acoustic_zero=True, tgrid="T0-first
         chk.harness_error("counterexample for %s did not reproduce on the real code (encoding suspect)" % name)
 
     t0 = time.time()
-    try:
-        res = X.run_single_path(run, name="C01:" + tag)
-    except SymError as e:
-        chk.harness_error("symbolic run failed: %s" % e)
-        return
-    except Exception as e:
+
+    def concrete_raise_check(e):
         # the analysed code raised on symbolic input: check whether the real code does as well
-        expected = {}
         chk.note("symbolic run raised %s: %s" % (type(e).__name__, e))
         point = PC.random_env(ctx, rng)
         c = PC.concretise_duck(d, point)
@@ -151,107 +153,126 @@ def run_shape(chk, ns, nq, np_, nv, n_sym_T, acoustic_zero=True, tgrid="T0-first
             chk.harness_error("symbolic run raised %r but the concrete run did not" % (e,))
         except Exception as e2:
             chk.violation("raises", "real class raises %s: %s" % (type(e2).__name__, e2), dict(shape=tag, point=point))
+
+    expected = {}
+
+    def judge(res, tag, sym_seconds):
+        nonlocal expected
+
+        # ---- oracle --------------------------------------------------------------------
+        t0 = time.time()
+        nt = d.nt
+        expected = {k: numpy.empty((nv,) if k.endswith("zp") else (nt, nv), dtype=object) for k in res}
+        for iv in range(nv):
+            zsum = PC.oracle_sums(d, H, K, iv, None)
+            e_i, e_j = ei[iv], ej[iv]
+            expected["long_zp"][iv] = zsum["A_zp"] / (5 * e_i * e_i) + zsum["P_zp"] / (3 * e_i)
+            expected["off_zp"][iv] = zsum["A_zp"] / (15 * e_i * e_j)
+            for it in range(nt):
+                t = d.t_array[it]
+                if Sym.of(t).is_zero():
+                    lt = Sym({})
+                    ot = Sym({})
+                else:
+                    tsum = PC.oracle_sums(d, H, K, iv, t)
+                    lt = tsum["A_th"] / (5 * e_i * e_i) + tsum["P_th"] / (3 * e_i)
+                    ot = tsum["A_th"] / (15 * e_i * e_j)
+                expected["long_th"][it, iv] = lt
+                expected["off_th"][it, iv] = ot
+                expected["long_iso"][it, iv] = expected["long_zp"][iv] + lt
+                expected["off_iso"][it, iv] = expected["off_zp"][iv] + ot + d.pressures[it, iv] - d.static_p_array[iv]
+        oracle_seconds = time.time() - t0
+        chk.note("%s: symbolic run %.2fs, oracle %.2fs, float constants read exactly: %d, named-constant max dev %.2g"
+                 % (tag, sym_seconds, oracle_seconds, ctx.float_exact, ctx.fold_max_dev))
+
+        # ---- obligations ------------------------------------------------------------------
+        for k in ("long_zp", "off_zp", "long_th", "off_th", "long_iso", "off_iso"):
+            got = numpy.asarray(res[k], dtype=object)
+            if got.shape != expected[k].shape:
+                chk.obligation("%s:%s:shape" % (tag, k), "sat", detail="shape %s != %s" % (got.shape, expected[k].shape))
+                replay("%s:%s[shape]" % (tag, k), None)
+                continue
+            for idx in numpy.ndindex(*expected[k].shape):
+                decide_identity(chk, "%s:%s[%s]" % (tag, k, ",".join(map(str, idx))), got[idx], expected[k][idx], replay)
+        divisor_obligations(chk, tag)
+
+        # ---- vacuity witnesses ----------------------------------------------------------------
+        it_w = max(i for i in range(nt) if not Sym.of(d.t_array[i]).is_zero())
+        w = Z.witness([("!=", expected["long_th"][it_w, 0]), ("!=", expected["off_zp"][0])],
+                          name=tag + ":witness", timeout_ms=20000, rng=rng)
+        chk.witness(tag + ":assumptions-satisfiable-and-oracle-nonzero", w[0])
+        chk.sample(dict(shape=tag, obligation="long_zp[0] == A_zp/(5 e^2) + P_zp/(3 e)",
+                        code=Sym.of(res["long_zp"][0]).short(3), oracle=Sym.of(expected["long_zp"][0]).short(3)))
+
+        # ---- stage R(b): encoding validation at a concrete point ---------------------------------
+        point = PC.random_env(ctx, rng)
+        c = PC.concretise_duck(d, point)
+        fe_i = numpy.array([Sym.of(x).evalf(dict(point)) for x in ei])
+        fe_j = numpy.array([Sym.of(x).evalf(dict(point)) for x in ej])
+        with numpy.errstate(all="ignore"):
+            try:
+                L = ns.LongitudinalElasticModulusPhononContribution(c, (fe_i, fe_i))
+                O = ns.OffDiagonalElasticModulusPhononContribution(c, (fe_i, fe_j))
+                real = dict(long_iso=L.value_isothermal, off_iso=O.value_isothermal)
+                worst = 0.0
+                for k, arr in real.items():
+                    for idx in numpy.ndindex(*arr.shape):
+                        s = Sym.of(res[k][idx])
+                        if has_undef(s):
+                            continue
+                        worst = max(worst, PC.rel_diff(float(arr[idx]), s.evalf(dict(point)), floor=1e-6 * float(numpy.abs(numpy.nan_to_num(arr)).max()) + 1e-300))
+                chk.validation_points += 1
+                if worst > 1e-7:
+                    chk.harness_error("symbolic result does not reproduce the real float run (rel %.3g) at %s" % (worst, tag))
+            except Exception as e:
+                chk.note("validation run raised %r" % (e,))
+        # corner points of the stated ranges (lowest temperatures, highest frequencies): the real float run must stay finite
+        # and agree with the symbolic result evaluated there (IEEE hazards proper are C12's subject; this is the encoding
+        # validation of stage R(b) taken at the corners)
+        if tgrid == "T0-first" and acoustic_zero and nq == 2:
+            for Tc, wc in ((0.5, 1500.0), (2.0, 1500.0), (3000.0, 30.0)):
+                pt = dict(point)
+                for nme in ctx.vars:
+                    if nme.startswith("T") and nme[1:].isdigit():
+                        pt[nme] = Tc
+                    if nme.startswith("w_"):
+                        pt[nme] = wc * (0.9 + 0.1 * (hash(nme) % 7) / 7.0)
+                for nme in [n_ for n_ in pt if n_.startswith(("exp!", "inv!", "pexp!"))]:
+                    pt.pop(nme)
+                c = PC.concretise_duck(d, pt)
+                with numpy.errstate(all="ignore"):
+                    try:
+                        L = ns.LongitudinalElasticModulusPhononContribution(c, (fe_i, fe_i))
+                        arr = numpy.asarray(L.value_isothermal, dtype=float)
+                    except Exception as e:
+                        chk.violation("corner:raises", "real class raises %s at T=%g K, omega~%g cm^-1" % (type(e).__name__, Tc, wc), dict(T=Tc, omega=wc))
+                        break
+                bad = None
+                for idx in numpy.ndindex(*arr.shape):
+                    want = Sym.of(res["long_iso"][idx]).evalf(dict(pt))
+                    if want == want and abs(want) != float("inf") and not (PC.rel_diff(float(arr[idx]), want, floor=1e-6 * abs(want) + 1e-300) < 1e-6):
+                        bad = (idx, float(arr[idx]), want)
+                chk.validation_points += 1
+                if bad:
+                    chk.violation("corner:T=%g" % Tc, "at T=%g K, omega~%g cm^-1 the isothermal value of the real class is %r but the free-energy "
+                                  "derivative gives %.6g" % (Tc, wc, bad[1], bad[2]), dict(T=Tc, omega=wc, index=list(bad[0])))
+                    break
+
+
+    try:
+        paths = X.explore(run, name="C01:" + tag, max_paths=16)
+    except SymError as e:
+        chk.harness_error("symbolic run failed: %s" % e)
         return
     sym_seconds = time.time() - t0
-
-    # ---- oracle --------------------------------------------------------------------
-    t0 = time.time()
-    nt = d.nt
-    expected = {k: numpy.empty((nv,) if k.endswith("zp") else (nt, nv), dtype=object) for k in res}
-    for iv in range(nv):
-        zsum = PC.oracle_sums(d, H, K, iv, None)
-        e_i, e_j = ei[iv], ej[iv]
-        expected["long_zp"][iv] = zsum["A_zp"] / (5 * e_i * e_i) + zsum["P_zp"] / (3 * e_i)
-        expected["off_zp"][iv] = zsum["A_zp"] / (15 * e_i * e_j)
-        for it in range(nt):
-            t = d.t_array[it]
-            if Sym.of(t).is_zero():
-                lt = Sym({})
-                ot = Sym({})
-            else:
-                tsum = PC.oracle_sums(d, H, K, iv, t)
-                lt = tsum["A_th"] / (5 * e_i * e_i) + tsum["P_th"] / (3 * e_i)
-                ot = tsum["A_th"] / (15 * e_i * e_j)
-            expected["long_th"][it, iv] = lt
-            expected["off_th"][it, iv] = ot
-            expected["long_iso"][it, iv] = expected["long_zp"][iv] + lt
-            expected["off_iso"][it, iv] = expected["off_zp"][iv] + ot + d.pressures[it, iv] - d.static_p_array[iv]
-    oracle_seconds = time.time() - t0
-    chk.note("%s: symbolic run %.2fs, oracle %.2fs, float constants read exactly: %d, named-constant max dev %.2g"
-             % (tag, sym_seconds, oracle_seconds, ctx.float_exact, ctx.fold_max_dev))
-
-    # ---- obligations ------------------------------------------------------------------
-    for k in ("long_zp", "off_zp", "long_th", "off_th", "long_iso", "off_iso"):
-        got = numpy.asarray(res[k], dtype=object)
-        if got.shape != expected[k].shape:
-            chk.obligation("%s:%s:shape" % (tag, k), "sat", detail="shape %s != %s" % (got.shape, expected[k].shape))
-            replay("%s:%s[shape]" % (tag, k), None)
-            continue
-        for idx in numpy.ndindex(*expected[k].shape):
-            decide_identity(chk, "%s:%s[%s]" % (tag, k, ",".join(map(str, idx))), got[idx], expected[k][idx], replay)
-    divisor_obligations(chk, tag)
-
-    # ---- vacuity witnesses ----------------------------------------------------------------
-    it_w = max(i for i in range(nt) if not Sym.of(d.t_array[i]).is_zero())
-    w = Z.witness([("!=", expected["long_th"][it_w, 0]), ("!=", expected["off_zp"][0])],
-                      name=tag + ":witness", timeout_ms=20000, rng=rng)
-    chk.witness(tag + ":assumptions-satisfiable-and-oracle-nonzero", w[0])
-    chk.sample(dict(shape=tag, obligation="long_zp[0] == A_zp/(5 e^2) + P_zp/(3 e)",
-                    code=Sym.of(res["long_zp"][0]).short(3), oracle=Sym.of(expected["long_zp"][0]).short(3)))
-
-    # ---- stage R(b): encoding validation at a concrete point ---------------------------------
-    point = PC.random_env(ctx, rng)
-    c = PC.concretise_duck(d, point)
-    fe_i = numpy.array([Sym.of(x).evalf(dict(point)) for x in ei])
-    fe_j = numpy.array([Sym.of(x).evalf(dict(point)) for x in ej])
-    with numpy.errstate(all="ignore"):
-        try:
-            L = ns.LongitudinalElasticModulusPhononContribution(c, (fe_i, fe_i))
-            O = ns.OffDiagonalElasticModulusPhononContribution(c, (fe_i, fe_j))
-            real = dict(long_iso=L.value_isothermal, off_iso=O.value_isothermal)
-            worst = 0.0
-            for k, arr in real.items():
-                for idx in numpy.ndindex(*arr.shape):
-                    s = Sym.of(res[k][idx])
-                    if has_undef(s):
-                        continue
-                    worst = max(worst, PC.rel_diff(float(arr[idx]), s.evalf(dict(point)), floor=1e-6 * float(numpy.abs(numpy.nan_to_num(arr)).max()) + 1e-300))
-            chk.validation_points += 1
-            if worst > 1e-7:
-                chk.harness_error("symbolic result does not reproduce the real float run (rel %.3g) at %s" % (worst, tag))
-        except Exception as e:
-            chk.note("validation run raised %r" % (e,))
-    # corner points of the stated ranges (lowest temperatures, highest frequencies): the real float run must stay finite
-    # and agree with the symbolic result evaluated there (IEEE hazards proper are C12's subject; this is the encoding
-    # validation of stage R(b) taken at the corners)
-    if tgrid == "T0-first" and acoustic_zero and nq == 2:
-        for Tc, wc in ((0.5, 1500.0), (2.0, 1500.0), (3000.0, 30.0)):
-            pt = dict(point)
-            for nme in ctx.vars:
-                if nme.startswith("T") and nme[1:].isdigit():
-                    pt[nme] = Tc
-                if nme.startswith("w_"):
-                    pt[nme] = wc * (0.9 + 0.1 * (hash(nme) % 7) / 7.0)
-            for nme in [n_ for n_ in pt if n_.startswith(("exp!", "inv!", "pexp!"))]:
-                pt.pop(nme)
-            c = PC.concretise_duck(d, pt)
-            with numpy.errstate(all="ignore"):
-                try:
-                    L = ns.LongitudinalElasticModulusPhononContribution(c, (fe_i, fe_i))
-                    arr = numpy.asarray(L.value_isothermal, dtype=float)
-                except Exception as e:
-                    chk.violation("corner:raises", "real class raises %s at T=%g K, omega~%g cm^-1" % (type(e).__name__, Tc, wc), dict(T=Tc, omega=wc))
-                    break
-            bad = None
-            for idx in numpy.ndindex(*arr.shape):
-                want = Sym.of(res["long_iso"][idx]).evalf(dict(pt))
-                if want == want and abs(want) != float("inf") and not (PC.rel_diff(float(arr[idx]), want, floor=1e-6 * abs(want) + 1e-300) < 1e-6):
-                    bad = (idx, float(arr[idx]), want)
-            chk.validation_points += 1
-            if bad:
-                chk.violation("corner:T=%g" % Tc, "at T=%g K, omega~%g cm^-1 the isothermal value of the real class is %r but the free-energy "
-                              "derivative gives %.6g" % (Tc, wc, bad[1], bad[2]), dict(T=Tc, omega=wc, index=list(bad[0])))
-                break
+    for pi, p in enumerate(paths):
+        if chk.violations:
+            break       # one replayed violation is enough; the remaining paths would only repeat it
+        with X.path_assumptions(p):
+            if p.exception is not None:
+                concrete_raise_check(p.exception)
+                continue
+            judge(p.result, tag if len(paths) == 1 else "%s@path%d" % (tag, pi), sym_seconds)
 
 
 def constants_side_check(chk, ns):
